@@ -12,9 +12,9 @@ import gen_sha  # noqa: E402
 PROPERTIES = ["C17"]
 MANIFEST = {
     "C17": {
-        "technique": "Lean 4 proof (model of Sha256.cpp/Sha256.hpp over constants and macro bodies regenerated from the current sources, proved equal to FIPS 180-4 / RFC 2104 written independently) + differential correspondence model vs real code vs Python hashlib/hmac",
-        "text": "Theorems over all messages, all chunkings and all keys: the generated K/H0 are the constants of the standard (defined as cube/square roots of primes), one Transform call equals the FIPS compression function, update/finalize over any list of chunks equals the FIPS digest of the concatenation, the hasher is reusable after finalize/reset, hmac equals RFC 2104 for the three key-length cases.  The model is tied to the current sources on every run: tables and macros are re-translated (g++ -E -dD) and the theorems re-checked over them; the hand-written control flow is run against the real code on identical op lines (all lengths 0..300 x all 2-way splits, sampled 3-way splits, lengths to 70000, keys 0..200) and both against Python hashlib/hmac.",
-        "note": "Trusted: Lean kernel + the three standard axioms; the translator tools/gen_sha.py (expression translator for the macro bodies; its output is exercised by the correspondence run); the hand translation of the control flow of update/finalize/Transform/WriteByteBlock/hmac (validated by the correspondence run, not proved); my transcription of FIPS 180-4 / RFC 2104 in Spec.lean (validated against NIST / RFC 4231 vectors in Lean and against Python hashlib/hmac through the driver: tests).  Assumed: total message length < 2^61 bytes (hypothesis of the theorems; the count<<3 wrap beyond it is outside the property); byte arrays passed to the real code are valid for their size.  See the OPEN block of lean/Nstd/Sha/Props.lean for statements that are only partially proved.",
+        "technique": "Lean 4 proof (model of Sha256.cpp/Sha256.hpp over constants and macro bodies re-translated from the current sources on every run, proved equal to FIPS 180-4 / RFC 2104 written independently) + differential correspondence real code vs model vs Python hashlib/hmac",
+        "text": "Kernel-checked theorems for ALL messages, chunkings and keys (no size bound other than the standard's own 2^64-bit limit): the generated K/H0 are the constants of the standard (defined as cube/square roots of the first primes, roots proved exact), the generated macro bodies S0 S1 s0 s1 Ch Maj are the functions of FIPS 4.1.2, one Transform call (rolling 16-word window, rotating register index, macro R) equals the FIPS compression function, update/finalize over any list of chunks equals the FIPS digest of the concatenation (one- and two-block padding cases), the hasher is reusable after construction/finalize/reset, Sha256::hmac equals RFC 2104 for keys shorter than, equal to and longer than the block size.  Tie to the current sources on every run: tables, header constants and macro bodies are re-translated (g++ -E -dD + expression translator) and all theorems are re-checked over them; the hand-written control flow of the model is executed against the real code (ASan/UBSan) on identical op lines - all lengths 0..300 x all 2-way splits, lengths 0..70 x all 3-way splits, sampled 3-way splits with interleaved reset/finalize, lengths to 70000, keys 0..200 (quick tier: seed-chosen slices) - and every digest is also compared with Python hashlib/hmac.",
+        "note": "Trusted: Lean kernel + the three standard axioms; the translator tools/gen_sha.py (small C-expression translator for the macro bodies; it refuses what it cannot translate faithfully, e.g. unsequenced side effects or _SHA256_UNROLL2; its output is exercised by the correspondence run); the hand translation of the control flow of update/finalize/Transform/WriteByteBlock/hash/hmac into Model.lean (validated by the correspondence run, not proved); my transcription of FIPS 180-4 / RFC 2104 in Spec.lean (kernel-evaluated on the NIST 'abc', empty, two-block vectors and RFC 4231 case 1, and compared with Python hashlib/hmac through the driver on every run: tests).  Modelled, not verified: C arrays are Lean lists read with getD/set (an out-of-range access would be a silent no-op in the model; the macro index expressions are proved in range, buffer positions are in range by the streaming invariant, and the harness runs the real code under ASan with the object in an exactly sized heap block); Transform's uninitialised W[16] is zeros in the model.  Hypothesis of the theorems: fewer than 2^61 bytes per digest (= the 2^64-bit limit of FIPS 180-4; beyond it count<<3 wraps).  No theorem is partial; there is no OPEN statement.",
         "design_ref": "DESIGN.md 3/C17",
     }
 }
@@ -85,6 +85,16 @@ def two_way(rng, n):
     h = []
     for s in range(n + 1):
         h += [f"update {hx(m[:s])}", f"update {hx(m[s:])}", "final"]
+    return h
+
+
+def three_way_all(rng, n):
+    """ALL three-way splits (cut points a <= b) of one message of length n on one reused hasher"""
+    m = rbytes(rng, n)
+    h = []
+    for a in range(n + 1):
+        for b in range(a, n + 1):
+            h += [f"update {hx(m[:a])}", f"update {hx(m[a:b])}", f"update {hx(m[b:])}", "final"]
     return h
 
 
@@ -171,18 +181,26 @@ def histories_for(ctx):
         lens = sorted(set(BOUNDARY) | {n for n in range(301) if (n + ctx.seed) % 2 == 0})
     else:
         lens = list(range(301))
-    two = [two_way(rng, n) for n in lens]
-    three = [three_way(rng) for _ in range(150 if quick else 3000)]
-    longs = [long_msg(rng) for _ in range(16 if quick else 200)]
+    contents = 1 if quick else 4
+    two = [two_way(rng, n) for n in lens for _ in range(contents)]
+    if quick:
+        lens3 = sorted({0, 1, 55, 56, 63, 64, 65} | {rng.randrange(71) for _ in range(5)})
+    else:
+        lens3 = list(range(71))
+    three_all = [three_way_all(rng, n) for n in lens3]
+    three = [three_way(rng) for _ in range(150 if quick else 20000)]
+    longs = [long_msg(rng) for _ in range(16 if quick else 600)]
     if quick:
         keylens = sorted({0, 1, 31, 32, 33, 63, 64, 65, 66, 96, 128, 199, 200} | {k for k in range(201) if (k + ctx.seed) % 3 == 0})
     else:
-        keylens = list(range(201)) * 6
+        keylens = list(range(201)) * 20
     hm = [hmac_hist(rng, keylens[i:i + 8]) for i in range(0, len(keylens), 8)]
-    nsplits = sum(n + 1 for n in lens)
+    nsplits = sum(n + 1 for n in lens) * contents
+    nsplits3 = sum((n + 1) * (n + 2) // 2 for n in lens3)
     ctx.cov["rule"] = (
         f"corpus ({ncorpus}) + NIST/RFC 4231 vectors + 2-way: for each length n in the scope, one random message, ALL n+1 splits "
-        f"update(m[:s]);update(m[s:]);finalize on one reused hasher ({len(lens)} lengths, {nsplits} splits) + {len(three)} histories of 12 "
+        f"update(m[:s]);update(m[s:]);finalize on one reused hasher ({len(lens)} lengths x {contents} contents, {nsplits} splits) + 3-way: ALL splits a<=b of one "
+        f"random message for each of {len(lens3)} lengths in 0..70 ({nsplits3} splits) + {len(three)} histories of 12 "
         f"sampled 3-way splits (lengths 0..300, boundary lengths favoured, interleaved reset()/finalize()/hash/spec) + {len(longs)} long messages "
         f"(301..70000 bytes, chunk sizes 1..{MAXLINE}) + hmac for {len(keylens)} keys (lengths {min(keylens)}..{max(keylens)}) with messages 0..300; content random/all-00/all-ff/all-80; "
         "every digest of the real code is compared with the Lean model AND with Python hashlib/hmac; `spec`/`spechmac` lines compare the Lean FIPS/RFC spec with both; "
@@ -190,8 +208,9 @@ def histories_for(ctx):
     full = not quick
     ctx.cov["exhaustive"] = full
     ctx.cov["exhaustive_scope"] = (f"lengths {'0..300 (all)' if full else str(len(lens)) + ' of 0..300 (boundary lengths + seed-chosen residue class mod 2)'}"
-                                   f" x all 2-way splits: {nsplits} chunkings (content: one random message per length)")
-    return hs + two + three + longs + hm
+                                   f" x all 2-way splits: {nsplits} chunkings ({contents} random/pattern message(s) per length); lengths "
+                                   f"{'0..70 (all)' if full else str(lens3)} x all 3-way splits: {nsplits3} chunkings")
+    return hs + two + three_all + three + longs + hm
 
 
 def nontrivial(h, out):
@@ -230,12 +249,78 @@ def check(ctx):
         hs = [h for p in parts for h in p]
         diffs = C.differential(ctx, harness, C.driver_path(DRIVER), hs, reference, C.default_eq, nontrivial=nontrivial, timeout=600)
         ctx.log(f"{len(hs)} histories, {ctx.cov['evaluations']} op lines, {len(diffs)} disagreement(s)")
-        C.report_diffs(ctx, diffs, harness, C.driver_path(DRIVER), reference, C.default_eq, "sha-ops")
+        report(ctx, diffs, harness, C.driver_path(DRIVER), "sha-ops")
     finally:
         try:
             harness.unlink()
         except OSError:
             pass
+
+
+def minimise_args(d, harness, driver, budget=400):
+    """argument minimisation after the op-line ddmin of common.shrink_diff: shorten every byte-string
+    argument (delta debugging over its bytes) while the same kind of disagreement persists"""
+    calls = [0]
+    h = list(d.hist[:d.idx + 1])
+
+    def fails(hist):
+        calls[0] += 1
+        if calls[0] > budget:
+            return False
+        ds, _, _, _, _ = C.run_batch(harness, driver, [hist], reference, C.default_eq, 60)
+        return bool(ds) and ds[0].kind == d.kind
+
+    for li in range(len(h)):
+        t = h[li].split()
+        for ti in range(1, len(t)):
+            if t[ti] == "-":
+                continue
+            try:
+                b = list(unhx(t[ti]))
+            except ValueError:
+                continue
+
+            def with_arg(bs, li=li, ti=ti):
+                tt = h[li].split()
+                tt[ti] = hx(bytes(bs))
+                return h[:li] + [" ".join(tt)] + h[li + 1:]
+
+            if fails(with_arg([])):
+                b = []
+            else:
+                b = C.ddmin(b, lambda bs: fails(with_arg(bs)))
+                if b and fails(with_arg([0] * len(b))):
+                    b = [0] * len(b)
+            h = with_arg(b)
+    ds, _, _, _, _ = C.run_batch(harness, driver, [h], reference, C.default_eq, 60)
+    return ds[0] if ds and ds[0].kind == d.kind else d
+
+
+def report(ctx, diffs, harness, driver, stream_name, max_reports=3):
+    """common.report_diffs plus argument minimisation (private variant, see AGENT_GUIDE section 1)"""
+    if not diffs:
+        return
+    concrete = [d for d in diffs if d.kind in ("impl-vs-reference", "impl-crash", "impl-exit")]
+    corr = [d for d in diffs if d.kind == "impl-vs-model"]
+    seen = set()
+    for d in sorted(concrete or corr, key=lambda d: sum(len(l) for l in d.hist[:d.idx + 1]))[:12]:
+        if len(seen) >= max_reports:
+            break
+        d = C.shrink_diff(d, harness, driver, reference, C.default_eq)
+        if d.kind != "impl-exit":
+            d = minimise_args(d, harness, driver)
+        key = "\n".join(d.hist[:d.idx + 1])
+        if key in seen:
+            continue
+        seen.add(key)
+        if d.kind == "impl-vs-model":
+            ctx.broken.append(f"correspondence {stream_name}: implementation and model differ")
+            ctx.violation(f"correspondence stream '{stream_name}' no longer checks (implementation vs Lean model); "
+                          f"the independent reference (Python hashlib/hmac) found no failing input on the explored histories",
+                          d.text(), no_input=True)
+        else:
+            ctx.violation(f"{d.kind} on stream '{stream_name}'", d.text(), no_input=False,
+                          signature=f"{d.kind}:{d.hist[d.idx].split(' ')[0] if d.hist else ''}")
 
 
 def open_statements():
